@@ -215,6 +215,21 @@ P("C17", "all output sinks emit the same bytes for the same format call", "sinks
                "extraction is exercised for char and wchar_t streams (libstdc++ has no ctype facet for char16_t/char32_t, so std::basic_string extraction itself fails there)"],
   dbits={"quick": 22, "thorough": 25})
 
+P("C05", "buffers keep size, content, terminator and exclusive ownership over any history", "buffer",
+  level_text=("runtime monitoring of histories: for each of char, wchar_t, char16_t and char32_t a pool of 8 buffers (each in a heap block of exactly sizeof(buffer) bytes) is driven through random sequences of "
+              "construction, copy, move, copy/move assignment incl. self-assignment, allocate, clear, element writes, reads and destruction under ASan+UBSan; after every step every live buffer is compared with a "
+              "shadow std::basic_string, its terminator is read, and its storage is classified through the replaced operator new/delete registry (in-object below the limit, otherwise exactly one exclusive new[] block of "
+              "(size+1) elements); conservation (library-owned live blocks == long buffers) and quiescence (nothing alive after all are destroyed) are checked; moved-from objects are held to the same invariants. "
+              "An exhaustive two-object table covers every (target class x source class x {copy=, move=, copy-ctor, move-ctor} x destruction order)"),
+  technique="history monitoring with a shadow model + structural invariant hooks (allocation registry, object footprint) under ASan+UBSan/LSan",
+  rule=("a case is one operation history (80 steps quick / 150 thorough over a pool of 8 buffers) or one cell of the two-object table; distinct by the operation sequence text; evaluations count monitor sweeps "
+        "(one per step, each over all live buffers); nothing trivial"),
+  assumptions=["the value of a moved-from buffer is unspecified: the monitor adopts whatever it reports, provided the structural invariants hold, and holds it to that value afterwards",
+               "the small-buffer limit is derived from sizeof(buffer<T>)"],
+  exhaustive={"quick": "two-object table: 7 target classes x 7 source classes x 4 operations x 2 destruction orders x 4 element types",
+              "thorough": "the same table"},
+  dbits={"quick": 22, "thorough": 25})
+
 _PENDING = "check not registered yet in this revision of /verif (harness under construction; nothing is claimed)"
 for _p in ["C%02d" % i for i in range(1, 21)]:
     if _p not in PROPS:
